@@ -85,6 +85,16 @@ def run(chk):
                             bad("equal-versions-interchangeable", a, b, c)
                         nviol += 1
     chk.extra["laws_checked_on_impl"] = laws
+    # versions that reached the program through UnmarshalText out of ONE reused read buffer (later overwritten) take part in the
+    # order exactly like the versions parsed from fresh strings
+    texts = [str(e).encode() + b":" + u + (b"-" + r if r else b"") for e, u, r in vs if e < 2**63 and u[:1].isdigit() and b" " not in u + r and len(u) + len(r) < 200]
+    bc = [("vcmpbuf", [rng.choice(texts), rng.choice(texts), rng.choice(texts)]) for _ in range(chk.n(1500, 30000))]
+    bi = chk.run_impl(bc)
+    chk.record("decoded-from-a-reused-buffer", bc, bi, lambda c, r: r.startswith("same"))
+    for c, r in zip(bc, bi):
+        if not (r.startswith("same") or r == "err"):
+            chk.violate({"kind": "property", "case": lib.show_case(c), "impl": r,
+                         "explanation": "versions decoded with UnmarshalText out of a reused buffer compare differently from the same versions parsed from strings"})
     # sorting
     k = chk.n(1500, 30000)
     scases = []
